@@ -33,6 +33,7 @@ type Scenario struct {
 	Tasks    []TaskSpec     `json:"tasks"`
 	LateDone bool           `json:"late_done,omitempty"` // Done() is first called by a waiter task, at a scheduler-chosen time
 	Preload  []int          `json:"preload"`             // callback modules imported before the run
+	CBAct    []int          `json:"cbact,omitempty"`     // per callback module: what its close callback does (0 record, 1 stay in flight for a few steps, 2 RunCode on its own context, 3 py.Import on its own context, 4 call a Python function of the context that imports)
 	Policy   string         `json:"policy"`              // random | pct | quantum | serial
 	PNum     int            `json:"pnum"`
 	Depth    int            `json:"depth"`
@@ -55,6 +56,7 @@ func init() {
 			OnContextClosed: func(m *py.Module) {
 				if cur != nil {
 					cur.ev("cb", i, "")
+					cur.callbackAct(i, m)
 				}
 			},
 		})
@@ -88,9 +90,59 @@ type run struct {
 	doneSeen   bool
 	closeRet   int // number of Close calls that have returned
 	closeFirst int64
+	cbAct      []int
+	cbCode     *py.Code
+	cbGlobals  py.StringDict
+	cbFn       py.Object
 }
 
 var cur *run
+
+// callbackAct: what the embedder's close callback of simcb<i> does besides
+// being recorded.  A callback that re-enters its own (closing) context must get
+// an ordinary error back: no body may run, nothing may panic or block for ever.
+func (r *run) callbackAct(i int, m *py.Module) {
+	if i >= len(r.cbAct) || r.cbAct[i] == 0 {
+		return
+	}
+	act := r.cbAct[i]
+	if act == 1 {
+		for k := 0; k < 4; k++ {
+			simrt.Yield("cb.hold")
+		}
+		return
+	}
+	var err error
+	panicked := ""
+	func() {
+		defer func() {
+			if p := recover(); p != nil {
+				panicked = fmt.Sprint(p)
+			}
+		}()
+		switch act {
+		case 2:
+			_, err = m.Context.RunCode(r.cbCode, r.cbGlobals, r.cbGlobals, nil)
+		case 3:
+			if _, e := m.Context.Store().GetModule("srcb"); e == nil {
+				// already loaded: importing it again executes nothing
+				err = fmt.Errorf("not a request")
+				break
+			}
+			err = py.Import(m.Context, "srcb")
+		default:
+			_, err = py.Call(r.cbFn, nil, nil)
+		}
+	}()
+	switch {
+	case panicked != "":
+		r.ev("cbreq.panic", i, panicked)
+	case err == nil:
+		r.ev("cbreq.ok", i, fmt.Sprint(act))
+	default:
+		r.ev("cbreq.err", i, fmt.Sprint(act))
+	}
+}
 
 func (r *run) observe() {
 	if r.done == nil {
@@ -204,6 +256,14 @@ func (Engine) Gen(seed uint64, idx int, tier string) interface{} {
 	for i := 0; i < nCB; i++ {
 		if r.Chance(1, 2) {
 			sc.Preload = append(sc.Preload, i)
+		}
+	}
+	if r.Chance(1, 3) {
+		sc.CBAct = make([]int, nCB)
+		for i := range sc.CBAct {
+			if r.Chance(1, 2) {
+				sc.CBAct[i] = 1 + r.Intn(4)
+			}
 		}
 	}
 	switch r.Intn(10) {
@@ -526,6 +586,18 @@ func (e Engine) Exec(sci interface{}, opt harness.ExecOpts) *harness.Outcome {
 		}
 	}
 
+	// what the close callbacks use when they re-enter the context
+	r.cbAct = sc.CBAct
+	if len(sc.CBAct) > 0 {
+		r.cbCode = mustCompile("import simhost\nsimhost.mark('s', 9000)\nsimhost.mark('e', 9000)\n", "<cbreq>")
+		r.cbGlobals = mainMod.Globals
+		if _, err := ctx.RunCode(mustCompile("def cb_fn():\n    exec(\"import simhost\\nsimhost.mark('s', 9001)\\nsimhost.mark('e', 9001)\\n\")\n", "<cbdef>"), mainMod.Globals, mainMod.Globals, nil); err != nil {
+			out.Infra = "setup: define callback function: " + pyErr(err)
+			return out
+		}
+		r.cbFn = mainMod.Globals["cb_fn"]
+	}
+
 	// every access to the file system behind the resolver is work done on
 	// behalf of an admitted request: it must not happen after Close returned
 	simfs.OnOp = func(op, name string) {
@@ -727,6 +799,16 @@ func (e Engine) Exec(sci interface{}, opt harness.ExecOpts) *harness.Outcome {
 					out.Violate("I6-callback-missing-at-close-return", "cb-missing", "Close returned (seq %d) before the close callback of simcb%d ran", ev.Seq, i)
 				}
 			}
+		case "cbreq.panic":
+			out.Violate("I1-panic", "panic|cbreq|"+panicSig(ev.Data), "a request made by the close callback of simcb%d on its own context panicked: %s", ev.ID, ev.Data)
+		case "cbreq.ok":
+			out.Probe("callback_reenters_context")
+			if ev.Data != "4" {
+				// (a direct py.Call is not itself a request; what it does shows up as body events)
+				out.Violate("I6-admitted-after-callbacks", "cbreq-admitted", "a request (kind %s) made by the close callback of simcb%d on its own context was admitted", ev.Data, ev.ID)
+			}
+		case "cbreq.err":
+			out.Probe("callback_reenters_context")
 		case "cb":
 			cbCount[ev.ID]++
 			if firstCB == 0 {
